@@ -1114,7 +1114,9 @@ def run(tier, seed, replay=None):
         "labels are ids into a finite pool; str.lower, '%s_%03d' and 'locus%03d' are uninterpreted functions in the theorems "
         "(only hypothesis, where stated: the suffix is injective in its counter up to case)",
         "row OBJECTS: coq/Model/C19RowHeap.v models the store of CharacterDataSequence objects and which object every operation stores / copies / "
-        "mutates in place; the harness observes id() of every row object after every step (canonicalised per history, observed objects are kept alive) "
+        "mutates in place; it is proved to refine the value-level model under separation + well-formedness (Props/C19.v object_level_refines_value_level) and is "
+        "tied to the current source by the object-level translator (py/dv/gen_charmatrix_obj.py -> coq/Gen/CharMatrixObj.v, Props/C19Obj.v; trusted there: the "
+        "translator and the Python semantics stated in coq/Model/C19ObjPrims.v, incl. `cls(matrix)` = deep copy with memo); the harness observes id() of every row object after every step (canonicalised per history, observed objects are kept alive) "
         "and the model's row ids must agree with them up to ONE injective renaming threaded through the whole history; "
         "a caller can still put one row object under two slots himself (m[k] = o[t] with a row of the matrix's own sequence type, copy.copy(m)): "
         "these are not operations of the property and not in the op alphabet; the model has them (OSetItemRow / OCopy) to state that they are the only steps breaking the separation",
@@ -1134,8 +1136,10 @@ def run(tier, seed, replay=None):
     ok = core.proof_stage(ctx, ["Props/C19.vo"], gen_needed=("__none__",))
     # translator tie: Gen/CharMatrix.v (regenerated from the current charmatrixmodel.py) = the model
     ok_gen = core.proof_stage(ctx, ["Props/C19Gen.vo"], props_file="Props/C19Gen.v", gen_needed=("CharMatrix",))
-    # object level: Gen/CharMatrixObj.v (which row object __setitem__ / fill_taxa / add_ / replace_ / update_sequences
-    # store, where constructor calls are evaluated) = the object-level model Model/C19RowHeap.v
+    # object level: Gen/CharMatrixObj.v (which row object every translated method stores / copies / mutates in place:
+    # __setitem__, __getitem__, new_sequence, fill_taxa, fill, pack, add_ / replace_ / update_ / extend_sequences,
+    # extend_matrix, remove_ / discard_ / keep_sequences, export_character_indices / _subset, concatenate; where
+    # constructor calls are evaluated) = the object-level model Model/C19RowHeap.v
     ok_obj = core.proof_stage(ctx, ["Props/C19Obj.vo"], props_file="Props/C19Obj.v", gen_needed=("CharMatrix", "CharMatrixObj"))
     if not (ok and ok_gen and ok_obj):
         core.broken_proof(ctx, search)
